@@ -133,6 +133,8 @@ class MoreInfoFromHeaderMixin:
             return None
 
         try:
-            return URL(url=referrer)
+            url = URL(url=referrer)
+            url.port  # "http://a:b/" has no numeric port
+            return url
         except ValueError:  # urlsplit rejects it, e.g. "http://[/"
             return None
